@@ -26,9 +26,20 @@ PROPS = {
         lean=["SuxModel.Props.C01"],
         runners=["ranksel"],
         ops={"case", "bits", "build", "rank", "rank_zero", "num_ones", "num_zeros", "count_ones", "len", "index", "parts"},
+        parts_layers={"r9", "rs"},
         trusted_base=["Rank9 / RankSmall models: SuxModel/RankSel/{Rank9,RankSmall}/Model.lean mirror src/rank_sel/{rank9,rank_small}.rs and the trait defaults of src/traits/rank_sel.rs"],
         assumptions=["usize = 64 bits; lengths below 2^64", "vectors beyond 2^32 bits are covered by the theorems only (the quick generator stays below 2^20 bits)"],
         open=[],
+    ),
+    "C09": dict(
+        claim="On the model of rear_coded_list.rs: decode_int inverts encode_int on all usize; for every NUL-free string list and k>=1 the built list has len=n, get/get_in_place(i)=strs[i], get panics exactly for i>=n, iter_from/lend_from(j) yield strs.drop j with exact len() for every j, is_sorted flag <=> bytewise sorted, index_of returns an index holding s iff s was pushed (sorted: for any binary_search_by result satisfying its contract, and the std algorithm is proved to satisfy it; unsorted: first occurrence), contains = index_of.is_some. Tied to the code by differential correspondence incl. exported (k,len,is_sorted,data,pointers).",
+        note="Trusted: Lean kernel + {propext, Classical.choice, Quot.sound}; hand-written model + harness; usize=64; binary_search_by modelled as the core library algorithm (>= 1.82) and additionally abstracted by its contract.",
+        lean=["SuxModel.Props.C09"],
+        runners=["rcl"],
+        ops=None,
+        trusted_base=["RCL model: SuxModel/RCL/Model.lean mirrors src/dict/rear_coded_list.rs; binary_search_by = core library algorithm (>=1.82)"],
+        assumptions=["usize = 64 bits", "every string < 2^63 bytes (isize::MAX)", "Stats arithmetic not modelled", "String::from_utf8 in get not modelled (result = pushed &str)"],
+        open=["vbyte code lengths 5..9 are not reachable through the public API (strings >= 270 MB): covered by the round-trip theorem and a one-off comparison only"],
     ),
     "C18": dict(
         claim="Partition theorem on the SigStore model (mirror of sig_store.rs: high_bits, new_online/new_offline, try_push, into_shard_store, both ShardIterator::next impls with equal/aggregate/split branches, borrowed and consuming): for every backend, signature width, pushed list and admissible (bucket bits, max shard bits, shard bits), iteration yields exactly 2^shard_bits shards, shard i is (as a multiset) the pushed pairs whose top shard_bits bits are i, shard_sizes[i] is its length, len is the number pushed, the union is the pushed multiset, borrowed iteration leaves the store unchanged and equals the consuming one; no panic, no uninitialised read. Model tied to the code by differential correspondence (online/offline, [u64;1]/[u64;2], u8/u64/EmptyVal, all triples with bits <= 6 quick / <= 10 thorough).",
